@@ -77,6 +77,7 @@ class Box:
             os.mkdir(d)
         self.confined = False
         self.inside = False
+        self.trapped = False
         self._orig_ns: int | None = None
         self._box_ns: int | None = None
         self._saved: tuple | None = None
@@ -148,7 +149,12 @@ class Box:
     def suspend(self) -> None:
         if self.inside:
             if self.confined:
-                self._to_ns(self._orig_ns)
+                try:
+                    self._to_ns(self._orig_ns)
+                except OSError:
+                    # a thread created inside the box shares this thread's fs_struct: the kernel refuses setns.
+                    # The process stays confined (harmless for a shard process that is about to exit).
+                    self.trapped = True
             self._leave_env()
 
     def resume(self) -> None:
@@ -233,20 +239,44 @@ def _children(pid: int) -> list[int]:
     return out
 
 
-def _reading_stdin(pid: int) -> bool:
-    """Is the process blocked in ``read(0, …)``? (``/proc/<pid>/syscall``: number and first argument)"""
+_SYS = {"x86_64": {"read": 0, "wait": (61, 247)}, "aarch64": {"read": 63, "wait": (260, 95)}}.get(
+    os.uname().machine, {"read": 0, "wait": (61, 247)}
+)
+
+
+def _syscall(pid: int) -> tuple[int, int] | None:
+    """(number, first argument) of the system call the process is blocked in, None if running/unknown."""
     try:
         with open(f"/proc/{pid}/syscall") as fh:
             words = fh.read().split()
-    except OSError:
-        return False
-    if len(words) < 2 or words[0] != "0":  # x86-64 / generic: read == 0 on x86-64, 63 on aarch64
-        if not (len(words) >= 2 and words[0] == "63" and os.uname().machine == "aarch64"):
-            return False
+        return int(words[0]), int(words[1], 16)
+    except (OSError, ValueError, IndexError):
+        return None
+
+
+def _fd_target(pid: int, fd: int) -> str | None:
     try:
-        return int(words[1], 16) == 0
-    except ValueError:
+        return os.readlink(f"/proc/{pid}/fd/{fd}")
+    except OSError:
+        return None
+
+
+def _tree_blocked_on(pid: int, pipe: str, depth: int = 0) -> bool:
+    """Can the process never run again unless data arrives on ``pipe`` (the persistent shell's stdin)?
+    Either it is itself blocked in read() on that pipe (whatever children it still has: zombies of finished
+    background jobs, jobs still running - none of them can make *it* continue), or it is blocked waiting for
+    children all of which are blocked in this sense."""
+    if depth > 8:
         return False
+    sc = _syscall(pid)
+    if sc is None:
+        return False
+    if sc[0] == _SYS["read"]:
+        return _fd_target(pid, sc[1]) == pipe
+    if sc[0] in _SYS["wait"]:
+        kids = _children(pid)
+        return bool(kids) and all(_tree_blocked_on(k, pipe, depth + 1) for k in kids)
+    return False
 
 
 def _stdin_empty(pid: int) -> bool:
@@ -289,7 +319,7 @@ def shell_procs(connector, location) -> list:
 
 def shell_stuck(connector, location) -> bool:
     """True iff a persistent shell of ``location`` holds its execute-lock (a command is in flight) and the
-    shell process is alive, has no child, and is blocked reading an *empty* stdin pipe whose writer has
+    shell process is alive and it - or every command it is waiting for - is blocked reading the shell's *empty* stdin pipe whose writer has
     nothing buffered, and no output of the shell is pending on StreamFlow's side (pipe and StreamReader buffer
     empty): neither side can ever make progress (the command's text left the shell inside an
     unterminated quote / here-document, so the end marker was swallowed)."""
@@ -306,17 +336,35 @@ def shell_stuck(connector, location) -> bool:
         if not _reader_drained(proc.stdout):
             continue
         pid = proc.pid
-        if _children(pid):
+        pipe = _fd_target(pid, 0)
+        if pipe is None or not pipe.startswith("pipe:"):
             continue
-        if _reading_stdin(pid) and _stdin_empty(pid):
+        # the shell itself, or a command it is waiting for that reads the shell's own stdin (`cat PATH -`)
+        if _stdin_empty(pid) and _tree_blocked_on(pid, pipe) and _stdin_empty(pid):
             return True
     return False
 
 
 def kill_shells(connector, location) -> None:
+    import signal
+
     for proc in shell_procs(connector, location):
         if proc.returncode is None:
+            victims = []
+
+            def collect(pid: int, depth: int = 0) -> None:
+                if depth < 8:
+                    for k in _children(pid):
+                        collect(k, depth + 1)
+                        victims.append(k)
+
+            collect(proc.pid)
             try:
                 proc.kill()
             except ProcessLookupError:
                 pass
+            for k in victims:
+                try:
+                    os.kill(k, signal.SIGKILL)
+                except OSError:
+                    pass
